@@ -3,14 +3,23 @@ mod coqfmt;
 mod e2e;
 mod gen_prog;
 mod reftrace;
+mod dqe_ast;
+mod leg_c07;
+mod leg_c07_eval;
 mod leg_c10;
 mod dap;
 mod leg_c12;
 mod leg_c14;
 mod leg_c01;
+mod leg_c04;
 mod leg_c05;
 mod leg_c15;
+mod leg_c16;
 mod leg_c17;
+mod leg_c18;
+mod scope_src;
+mod dwarfdump;
+mod leg_c19;
 mod dbg_tmp;
 
 fn main() {
@@ -25,8 +34,21 @@ fn main() {
         "c14-unit" => leg_c14::run_unit(rest),
         "c14-e2e" => leg_c14::run_e2e(rest),
         "c15-e2e" => leg_c15::run(rest),
+        "c16-marg" => leg_c16::run_marg(rest),
+        "c16-e2e" => leg_c16::run_e2e(rest),
+        "c16-e2e-worker" => leg_c16::run_worker(rest),
+        "c16-e2e-cache" => leg_c16::run_cache(rest),
         "c05-e2e" => leg_c05::run(rest),
+        "c04-e2e" => leg_c04::run(rest),
+        "c04-witness" => leg_c04::run_witness(rest),
+        "c18-e2e" => leg_c18::run(rest),
+        "c19-e2e" => leg_c19::run(rest),
         "c10-e2e" => leg_c10::run(rest),
+        "c10-acct" => leg_c10::run_acct(rest),
+        "c07-parse" => leg_c07::run_parse(rest),
+        "c07-eval" => leg_c07_eval::run(rest),
+        "c07-eval-probe" => leg_c07_eval::run_probe(rest),
+        "c08-console" => leg_c07::run_console(rest),
         "c12-e2e" => leg_c12::run(rest),
         "c01-e2e" => leg_c01::run(rest),
         "dbg" => dbg_tmp::run(rest),
